@@ -41,8 +41,10 @@ const nCons = 4
 
 type act struct {
 	qa.Act
-	C int `json:"c"`
-	P int `json:"p"`
+	C    int      `json:"c"`
+	P    int      `json:"p"`
+	K    int      `json:"k"`    // pushn / popn: calls in the burst
+	Acts []qa.Act `json:"acts"` // burst: calls issued back to back by one goroutine
 }
 
 type planLine struct {
@@ -71,14 +73,14 @@ func none() tr.E { return qa.Rp("none", 0) }
 
 // ================================================================ list queues, step by step
 type lworld struct {
-	w      *tr.W
-	q      qa.Queue
-	kind   string
-	x      *qx.Exec
-	busy   [nCons + 1]bool // consumer has an outstanding Pop
-	cnt    int
-	closed bool
-	dead   bool
+	w    *tr.W
+	q    qa.Queue
+	kind string
+	x    *qx.Exec
+	busy [nCons + 1]bool // consumer has an outstanding Pop
+	m    qa.Model        // the harness's own count model of the property (drain length only)
+	mp   int             // consumers parked according to that model
+	dead bool
 }
 
 func (a act) rec() tr.E {
@@ -86,17 +88,49 @@ func (a act) rec() tr.E {
 	if a.Op == "pop" {
 		e["c"] = a.C
 	}
+	if a.Op == "burst" {
+		recs := make([]tr.E, len(a.Acts))
+		for i, x := range a.Acts {
+			recs[i] = x.Rec()
+		}
+		e["acts"] = recs
+	}
 	return e
 }
 
 // step issues one call, waits for quiescence, logs the stable picture.
 func (wd *lworld) step(a act) {
-	if wd.dead || !qa.Supports(wd.kind, a.Act) {
+	if wd.dead {
+		return
+	}
+	if a.Op == "burst" {
+		var keep []qa.Act
+		for _, x := range a.Acts {
+			if x.Op != "pop" && qa.Supports(wd.kind, x) {
+				keep = append(keep, x)
+			}
+		}
+		if len(keep) == 0 {
+			return
+		}
+		a.Acts = keep
+	} else if !qa.Supports(wd.kind, a.Act) {
 		return
 	}
 	q := wd.q
 	inner := a.Act
-	if a.Op == "pop" {
+	if a.Op == "burst" {
+		// one goroutine, the calls back to back, no quiescence in between: woken consumers race
+		// with the rest of the burst
+		acts := a.Acts
+		wd.x.Issue(nCons+1, func() interface{} {
+			rs := make([]tr.E, len(acts))
+			for i, x := range acts {
+				rs[i] = qa.Safe(q, x)
+			}
+			return rs
+		})
+	} else if a.Op == "pop" {
 		if a.C < 1 || a.C > nCons || wd.busy[a.C] {
 			return
 		}
@@ -109,13 +143,20 @@ func (wd *lworld) step(a act) {
 		tr.Fatal("%v", err)
 	}
 	rep := qa.Rp("parked", 0)
+	rs := make([]tr.E, 0)
 	if a.Op != "pop" {
 		r, ok := wd.x.Take(nCons + 1)
-		if !ok {
+		switch {
+		case !ok:
 			// a call that must not block is parked: nothing in the spec has this reply
 			rep = qa.Rp("blocked", 0)
+			for range a.Acts {
+				rs = append(rs, rep)
+			}
 			wd.dead = true
-		} else {
+		case a.Op == "burst":
+			rep, rs = qa.Rp("burst", 0), r.([]tr.E)
+		default:
 			rep = r.(tr.E)
 		}
 	}
@@ -129,9 +170,6 @@ func (wd *lworld) step(a act) {
 				wd.busy[c] = false
 				re := r.(tr.E)
 				st[c-1] = tr.E{"s": "ret", "r": re}
-				if re["st"] == "item" {
-					wd.cnt--
-				}
 				if c == a.C && a.Op == "pop" {
 					rep = re
 				}
@@ -142,30 +180,71 @@ func (wd *lworld) step(a act) {
 			}
 		}
 	}
-	wd.w.Emit(tr.E{"ev": "step", "a": a.rec(), "r": rep, "st": st})
-	switch a.Op {
-	case "add":
-		if rep["st"] == "ok" && !wd.closed {
-			wd.cnt++
+	ev := tr.E{"ev": "step", "a": a.rec(), "r": rep, "st": st}
+	switch {
+	case a.Op == "burst":
+		ev["rs"] = rs
+		for _, x := range a.Acts {
+			wd.model(x)
 		}
-	case "trypop":
-		if rep["st"] == "item" {
-			wd.cnt--
-		}
-	case "close":
-		wd.closed = true
-	case "tryclose":
-		if rep["st"] == "true" {
-			wd.closed = true
+	case a.Op == "pop" && !wd.m.PopReturns():
+		wd.mp++
+	default:
+		wd.model(a.Act)
+	}
+	wd.w.Emit(ev)
+}
+
+// model advances the count model: parked consumers take what arrives, a close releases them.
+func (wd *lworld) model(x qa.Act) {
+	wd.m.Apply(x)
+	for wd.mp > 0 && wd.m.Len() > 0 {
+		wd.m.Apply(qa.Act{Op: "pop", Any: true})
+		wd.mp--
+	}
+	if wd.m.Closed {
+		wd.mp = 0
+	}
+}
+
+// bursts rewrites a plan: runs of consecutive non-blocking calls (adds, close, try-close; the
+// internal "wake" lines of the plan are dropped first) become one burst step of up to 4 calls.
+func bursts(plan []act) []act {
+	var out []act
+	var run []qa.Act
+	flush := func() {
+		for len(run) > 0 {
+			n := len(run)
+			if n > 4 {
+				n = 4
+			}
+			if n == 1 {
+				out = append(out, act{Act: run[0]})
+			} else {
+				out = append(out, act{Act: qa.Act{Op: "burst"}, Acts: append([]qa.Act{}, run[:n]...)})
+			}
+			run = run[n:]
 		}
 	}
+	for _, a := range plan {
+		switch a.Op {
+		case "wake":
+		case "add", "close", "tryclose":
+			run = append(run, a.Act)
+		default:
+			flush()
+			out = append(out, a)
+		}
+	}
+	flush()
+	return out
 }
 
 func mkAct(op string) act { return act{Act: qa.Act{Op: op}} }
 
 // drain: close (every parked consumer must come back), then take out the residue.
 func (wd *lworld) drain() {
-	if !wd.closed {
+	if !wd.m.Closed {
 		wd.step(mkAct("close"))
 	}
 	free := 0
@@ -176,7 +255,7 @@ func (wd *lworld) drain() {
 		}
 	}
 	if free != 0 {
-		for i := wd.cnt + 1; i >= 0 && !wd.dead; i-- {
+		for i := wd.m.Len() + 1; i >= 0 && !wd.dead; i-- {
 			wd.step(act{Act: qa.Act{Op: "pop", Any: true}, C: free})
 		}
 	}
@@ -184,7 +263,8 @@ func (wd *lworld) drain() {
 }
 
 func runList(w *tr.W, src, kind string, ccap, rcap, rep int, plan []act) {
-	wd := &lworld{w: w, q: qa.New(kind, ccap, rcap, rep), kind: kind, x: qx.New(nCons + 1)}
+	wd := &lworld{w: w, q: qa.New(kind, ccap, rcap, rep), kind: kind, x: qx.New(nCons + 1),
+		m: qa.Model{Kind: kind, Ccap: ccap, Rcap: rcap}}
 	w.Emit(tr.E{"ev": "reset", "kind": kind, "ccap": ccap, "rcap": rcap, "src": src, "rep": rep})
 	for _, a := range plan {
 		wd.step(a)
@@ -214,12 +294,26 @@ func randList(rng *rand.Rand, kind string, n int) []act {
 		case x < pPop:
 			out = append(out, act{Act: qa.Act{Op: "pop", Any: kind == "syncq" || rng.Intn(5) < 2}, C: rng.Intn(nCons) + 1})
 		case x < pPop+30:
-			id++
-			lane := "req"
-			if kind == "mq" && rng.Intn(5) < 2 {
-				lane = "ctrl"
+			mk := func() qa.Act {
+				id++
+				lane := "req"
+				if kind == "mq" && rng.Intn(5) < 2 {
+					lane = "ctrl"
+				}
+				return qa.Act{Op: "add", Lane: lane, Prior: kind != "syncq" && rng.Intn(4) == 0, V: id}
 			}
-			out = append(out, act{Act: qa.Act{Op: "add", Lane: lane, Prior: kind != "syncq" && rng.Intn(4) == 0, V: id}})
+			if rng.Intn(3) == 0 { // a burst of adds, sometimes with the close right behind
+				b := act{Act: qa.Act{Op: "burst"}}
+				for k := 2 + rng.Intn(3); k > 0; k-- {
+					b.Acts = append(b.Acts, mk())
+				}
+				if rng.Intn(6) == 0 {
+					b.Acts = append(b.Acts, qa.Act{Op: "close"})
+				}
+				out = append(out, b)
+			} else {
+				out = append(out, act{Act: mk()})
+			}
 		default:
 			out = append(out, mkAct([]string{"isclosed", "tryclose", "tryclear", "len", "trypop"}[rng.Intn(5)]))
 		}
@@ -477,10 +571,10 @@ func (wd *pworld) call(p int, op string) {
 
 func (wd *pworld) step(a act) {
 	p := a.P
-	if wd.dead || p < 1 || p > nCons {
+	if wd.dead || (a.Op != "gateall" && (p < 1 || p > nCons)) {
 		return
 	}
-	atGate := wd.rel[p] != nil
+	atGate := a.Op != "gateall" && wd.rel[p] != nil
 	var rep tr.E
 	switch a.Op {
 	case "push", "pop", "pushx", "popx":
@@ -523,6 +617,66 @@ func (wd *pworld) step(a act) {
 			rep = qa.Rp("blocked:"+wd.x.WaitState(p), 0)
 			wd.dead = true
 		}
+	case "pushn", "popn":
+		// k calls back to back on one goroutine, gates open
+		if atGate || a.K < 1 {
+			return
+		}
+		q, k, push := wd.q, a.K, a.Op == "pushn"
+		base := wd.id
+		wd.id += k
+		wd.x.Issue(p, func() (r interface{}) {
+			defer func() {
+				if pv := recover(); pv != nil {
+					r = qa.Rp("panic", 0)
+				}
+			}()
+			n := 0
+			for i := 1; i <= k; i++ {
+				if push {
+					if q.Push(&pent{base + i}) == nil {
+						n++
+					}
+				} else if q.Pop() != nil {
+					n++
+				}
+			}
+			if push {
+				return qa.Rp("ok", n)
+			}
+			return qa.Rp("item", n)
+		})
+		if err := wd.x.Settle(); err != nil {
+			tr.Fatal("%v", err)
+		}
+		if r, ok := wd.x.Take(p); ok {
+			rep = r.(tr.E)
+		} else {
+			rep = qa.Rp("blocked:"+wd.x.WaitState(p), 0)
+			wd.dead = true
+		}
+	case "gateall":
+		// every call standing at a gate continues at once
+		n := 0
+		for i := 1; i <= nCons; i++ {
+			if wd.rel[i] != nil {
+				close(wd.rel[i])
+				wd.rel[i] = nil
+				n++
+			}
+		}
+		if err := wd.x.Settle(); err != nil {
+			tr.Fatal("%v", err)
+		}
+		rep = qa.Rp("ok", n)
+		for i := 1; i <= nCons; i++ {
+			if wd.x.Busy(i) {
+				if _, ok := wd.x.Take(i); !ok {
+					rep = qa.Rp("blocked:"+wd.x.WaitState(i), 0)
+					wd.dead = true
+				}
+			}
+		}
 	case "recv":
 		if atGate {
 			return
@@ -544,7 +698,14 @@ func (wd *pworld) step(a act) {
 			st[i-1] = "idle"
 		}
 	}
-	wd.w.Emit(tr.E{"ev": "step", "a": tr.E{"op": a.Op, "p": p}, "r": rep,
+	rec := tr.E{"op": a.Op, "p": p}
+	switch a.Op {
+	case "pushn", "popn":
+		rec["k"] = a.K
+	case "gateall":
+		rec = tr.E{"op": a.Op}
+	}
+	wd.w.Emit(tr.E{"ev": "step", "a": rec, "r": rep,
 		"sig": len(wd.q.WaitCh()), "len": wd.q.Len(), "st": st})
 }
 
@@ -566,10 +727,11 @@ func runPri(w *tr.W, src string, rcap int, plan []act) {
 }
 
 func randPri(rng *rand.Rand, n int) []act {
-	ops := []string{"push", "push", "pushx", "pop", "pop", "popx", "gate", "gate", "gate", "recv", "recv"}
+	ops := []string{"push", "push", "pushx", "pop", "pop", "popx", "gate", "gate", "gate", "recv", "recv",
+		"pushn", "popn", "gateall"}
 	var out []act
 	for i := 0; i < n; i++ {
-		out = append(out, act{Act: qa.Act{Op: ops[rng.Intn(len(ops))]}, P: rng.Intn(nCons) + 1})
+		out = append(out, act{Act: qa.Act{Op: ops[rng.Intn(len(ops))]}, P: rng.Intn(nCons) + 1, K: 2 + rng.Intn(3)})
 	}
 	return out
 }
@@ -635,7 +797,11 @@ func main() {
 			if len(p) == 0 || p[0].Op != "init" {
 				tr.Fatal("plan %s does not start with init", f)
 			}
-			runList(w, "plan:"+filepath.Base(f), p[0].Kind, p[0].Ccap, p[0].Rcap, i%4, p[1:])
+			steps := p[1:]
+			if i%2 == 1 {
+				steps = bursts(steps)
+			}
+			runList(w, "plan:"+filepath.Base(f), p[0].Kind, p[0].Ccap, p[0].Rcap, i%4, steps)
 		}
 	}
 	kinds := []string{"syncq", "q", "async", "mux", "mq"}
@@ -650,6 +816,29 @@ func main() {
 			rcap = 0
 		}
 		runList(w, "rand", kind, ccap, rcap, rng.Intn(4), randList(rng, kind, 10+rng.Intn(16)))
+	}
+	// the wake-up scenario itself, for every kind: c consumers parked, then k adds in one burst
+	for i := 0; i < *nrand/3+10; i++ {
+		kind := kinds[i%len(kinds)]
+		c, k := 2+rng.Intn(nCons-1), 2+rng.Intn(3)
+		var plan []act
+		for j := 1; j <= c; j++ {
+			plan = append(plan, act{Act: qa.Act{Op: "pop", Any: kind == "syncq" || rng.Intn(2) == 0}, C: j})
+		}
+		b := act{Act: qa.Act{Op: "burst"}}
+		for j := 1; j <= k; j++ {
+			lane := "req"
+			if kind == "mq" && rng.Intn(2) == 0 {
+				lane = "ctrl"
+			}
+			b.Acts = append(b.Acts, qa.Act{Op: "add", Lane: lane, Prior: kind != "syncq" && rng.Intn(4) == 0, V: j})
+		}
+		plan = append(plan, b)
+		rcap := 0
+		if kind != "syncq" && rng.Intn(3) == 0 {
+			rcap = 1 + rng.Intn(3)
+		}
+		runList(w, "scenario", kind, 0, rcap, rng.Intn(4), plan)
 	}
 	w.Close()
 
